@@ -88,6 +88,7 @@ struct GitSite {
     guards: Vec<&'static str>,
     seq: usize,
     uses_thread: bool,
+    stderr_drained: bool,   // the enclosing function hands the child's stderr to a thread that reads it to the end
 }
 
 #[derive(Clone, Debug)]
@@ -120,6 +121,7 @@ struct V {
     in_test: bool,
     cleanup_arm: Option<&'static str>,
     fn_uses_thread: bool,
+    fn_drains_stderr: bool,
 }
 
 fn lit_str(e: &Expr) -> Option<String> {
@@ -200,7 +202,7 @@ impl V {
         if is_command_new_git(base) {
             let line = match base { Expr::Call(c) => c.paren_token.span.open().start().line, _ => 0 };
             let mut site = GitSite { file: self.file.clone(), func: self.func.clone(), line, var: bind, args: vec![], arg_cond: vec![], stdin_piped: false,
-                stdout_piped: false, stderr: "dflt", via_output: false, wrapper: None, guards: self.guards.clone(), seq: self.seq, uses_thread: self.fn_uses_thread };
+                stdout_piped: false, stderr: "dflt", via_output: false, wrapper: None, guards: self.guards.clone(), seq: self.seq, uses_thread: self.fn_uses_thread, stderr_drained: self.fn_drains_stderr };
             self.seq += 1;
             for (m, name) in &calls { V::apply_builder_call(&mut site, m, name, false); }
             // `.output()` pipes stdout (and stderr) and drains them concurrently: not a hand-rolled protocol
@@ -278,6 +280,21 @@ fn use_leaves(t: &syn::UseTree, prefix: &mut Vec<String>, out: &mut Vec<(Vec<Str
     }
 }
 
+
+/// does this function body hand a child's stderr to a thread that reads it to the end?
+fn drains_stderr(body: &str) -> bool {
+    let t = body.replace(' ', "").replace('\n', "");
+    if !t.contains("stderr.take()") { return false; }
+    let mut from = 0;
+    while let Some(i) = t[from..].find("thread::spawn(") {
+        let at = from + i;
+        let end = (at + 400).min(t.len());
+        if t[at..end].contains("read_to_end(") { return true; }
+        from = at + 1;
+    }
+    false
+}
+
 impl<'ast> Visit<'ast> for V {
     fn visit_field(&mut self, f: &'ast syn::Field) {
         if self.in_test { return; }
@@ -341,6 +358,7 @@ impl<'ast> Visit<'ast> for V {
         let prev_hash = self.hash_vars.clone();
         let prev_thread = self.fn_uses_thread;
         self.fn_uses_thread = f.block.to_token_stream().to_string().replace(' ', "").contains("thread::spawn");
+        let prev_drain = std::mem::replace(&mut self.fn_drains_stderr, drains_stderr(&f.block.to_token_stream().to_string()));
         // leading early returns: `if cond { return Ok(..) }`
         let mut conds = Vec::new();
         for st in &f.block.stmts {
@@ -363,6 +381,7 @@ impl<'ast> Visit<'ast> for V {
         self.func = prev;
         self.hash_vars = prev_hash;
         self.fn_uses_thread = prev_thread;
+        self.fn_drains_stderr = prev_drain;
     }
     fn visit_impl_item_fn(&mut self, f: &'ast syn::ImplItemFn) {
         if self.in_test { return; }
@@ -371,10 +390,12 @@ impl<'ast> Visit<'ast> for V {
         let prev_hash = self.hash_vars.clone();
         let prev_thread = self.fn_uses_thread;
         self.fn_uses_thread = f.block.to_token_stream().to_string().replace(' ', "").contains("thread::spawn");
+        let prev_drain = std::mem::replace(&mut self.fn_drains_stderr, drains_stderr(&f.block.to_token_stream().to_string()));
         syn::visit::visit_impl_item_fn(self, f);
         self.func = prev;
         self.hash_vars = prev_hash;
         self.fn_uses_thread = prev_thread;
+        self.fn_drains_stderr = prev_drain;
     }
     fn visit_local(&mut self, l: &'ast Local) {
         let name = match &l.pat { Pat::Ident(id) => Some(id.ident.to_string()), Pat::Type(t) => match &*t.pat { Pat::Ident(id) => Some(id.ident.to_string()), _ => None }, _ => None };
@@ -460,7 +481,7 @@ impl<'ast> Visit<'ast> for V {
                 if let Expr::Array(arr) = inner {
                     let lits: Vec<Option<String>> = arr.elems.iter().map(lit_str).collect();
                     let site = GitSite { file: self.file.clone(), func: self.func.clone(), line, var: None, arg_cond: vec![false; lits.len()], args: lits, stdin_piped: false,
-                        stdout_piped: streamed, stderr: "dflt", via_output: false, wrapper: Some(wname.clone()), guards: self.guards.clone(), seq: self.seq, uses_thread: self.fn_uses_thread };
+                        stdout_piped: streamed, stderr: "dflt", via_output: false, wrapper: Some(wname.clone()), guards: self.guards.clone(), seq: self.seq, uses_thread: self.fn_uses_thread, stderr_drained: self.fn_drains_stderr };
                     self.seq += 1;
                     self.sites.push(site);
                     let idx = self.sites.len() - 1;
@@ -532,7 +553,7 @@ impl<'ast> Visit<'ast> for V {
 fn main() {
     let src_dir = std::env::args().nth(1).unwrap_or_else(|| "/repo/filter-repo-rs/src".to_string());
     let mut v = V { file: String::new(), func: String::new(), guards: vec![], sites: vec![], events: BTreeMap::new(), wait_vars: BTreeMap::new(),
-        hash_vars: vec![], hash_iter: vec![], dry_reads: vec![], clock_reads: vec![], early_returns: BTreeMap::new(), fs_writes: vec![], breaks: vec![], consts: vec![], patterns: vec![], module_calls: Default::default(), imports: BTreeMap::new(), seq: 0, in_test: false, cleanup_arm: None, fn_uses_thread: false };
+        hash_vars: vec![], hash_iter: vec![], dry_reads: vec![], clock_reads: vec![], early_returns: BTreeMap::new(), fs_writes: vec![], breaks: vec![], consts: vec![], patterns: vec![], module_calls: Default::default(), imports: BTreeMap::new(), seq: 0, in_test: false, cleanup_arm: None, fn_uses_thread: false, fn_drains_stderr: false };
     let pass = |v: &mut V, files: &Vec<std::path::PathBuf>| {
         for path in files {
             let name = path.file_stem().unwrap().to_string_lossy().to_string();
@@ -550,7 +571,7 @@ fn main() {
     files.sort();
     // pass 1: find the generic runners (a git command whose subcommand comes from an `args` parameter)
     let mut v1 = V { file: String::new(), func: String::new(), guards: vec![], sites: vec![], events: BTreeMap::new(), wait_vars: BTreeMap::new(),
-        hash_vars: vec![], hash_iter: vec![], dry_reads: vec![], clock_reads: vec![], early_returns: BTreeMap::new(), fs_writes: vec![], breaks: vec![], consts: vec![], patterns: vec![], module_calls: Default::default(), imports: BTreeMap::new(), seq: 0, in_test: false, cleanup_arm: None, fn_uses_thread: false };
+        hash_vars: vec![], hash_iter: vec![], dry_reads: vec![], clock_reads: vec![], early_returns: BTreeMap::new(), fs_writes: vec![], breaks: vec![], consts: vec![], patterns: vec![], module_calls: Default::default(), imports: BTreeMap::new(), seq: 0, in_test: false, cleanup_arm: None, fn_uses_thread: false, fn_drains_stderr: false };
     pass(&mut v1, &files);
     for s in &v1.sites {
         let has_sub = s.args.iter().any(|a| a.as_ref().map_or(false, |l| sub_ctor(l).is_some()));
@@ -587,8 +608,8 @@ fn main() {
             }
         }
         let sub = sub.unwrap_or_else(|| { eprintln!("extract: git command without a literal subcommand at {}.rs:{} ({})", s.file, s.line, s.func); std::process::exit(3) });
-        format!("{{ file := .{}, line := {}, sub := .{}, tags := [{}], stdinPiped := {}, stdoutPiped := {}, stderr := .{}, viaOutput := {}, usesThread := {}, guards := {} }}",
-            file_ctor(&s.file), s.line, sub, tags.iter().map(|t| format!(".{t}")).collect::<Vec<_>>().join(", "), s.stdin_piped, s.stdout_piped, s.stderr, s.via_output, s.uses_thread, g(&s.guards))
+        format!("{{ file := .{}, line := {}, sub := .{}, tags := [{}], stdinPiped := {}, stdoutPiped := {}, stderr := .{}, viaOutput := {}, usesThread := {}, stderrDrained := {}, guards := {} }}",
+            file_ctor(&s.file), s.line, sub, tags.iter().map(|t| format!(".{t}")).collect::<Vec<_>>().join(", "), s.stdin_piped, s.stdout_piped, s.stderr, s.via_output, s.uses_thread, s.stderr_drained, g(&s.guards))
     };
     // the generic runners themselves have no literal subcommand: their call sites were collected instead
     let is_wrapper_def = |s: &GitSite| WRAPPERS.contains(&s.func.as_str()) && !s.args.iter().any(|a| a.as_ref().map_or(false, |l| sub_ctor(l).is_some()));
